@@ -18,7 +18,8 @@ RELATED = {
     "C13": [("C10", ["C10.R2", "C10.R3", "C10.R5"])],                          # the shrunk relocation scatters the new, smaller offset
     "C15": [("C02", ["C02.R2"])],                                              # forward references are patched with replace_by: every slot must be replaced
     "C16": [("C02", ["C02.R2"])],
-    "C21": [("C20", None)],                                                    # the binary format is LEB128 all over
+    "C21": [("C20", None)],
+    "C22": [("C24", ["C24.R2", "C24.R3", "C24.R4", "C24.R5"])],                # the Python execution target runs wasm through ir2py's runtime helpers                                                    # the binary format is LEB128 all over
 }
 
 
